@@ -58,6 +58,8 @@ type Violation struct {
 	Path     []int64      `json:"path"`
 	Notes    []string     `json:"notes,omitempty"`
 	Modelled bool         `json:"modelled"` // false if solver could not give a model
+	// Passed: assertions of the harness that were evaluated and held on this path before the violation
+	Passed []string `json:"passed,omitempty"`
 }
 
 type Result struct {
@@ -613,7 +615,14 @@ func (in *Interp) violation(label, msg string, _ bool, siteOpt ...string) {
 		ex.mu.Unlock()
 		return
 	}
-	v := Violation{Entry: ex.entry.Name(), Label: label, Msg: msg, Site: site, Known: known, Inputs: items,
+	var passed []string
+	for l := range in.asserted {
+		if "assert:"+l != label {
+			passed = append(passed, l)
+		}
+	}
+	sort.Strings(passed)
+	v := Violation{Entry: ex.entry.Name(), Label: label, Msg: msg, Site: site, Known: known, Inputs: items, Passed: passed,
 		Path: append([]int64{}, in.decisions64...), Notes: append([]string{}, in.pathNotes...), Modelled: ok, Sched: append([]string{}, in.sched...)}
 	ex.mu.Lock()
 	if replace >= 0 {
